@@ -79,21 +79,32 @@ class ObResult(object):
         self.meta = ob.meta
 
 
-def solve_obligation(ob, timeout_ms=20000, want_smt2=False, hints=()):
+def _fresh_smt2(ob):
     s = z3.Solver()
-    s.set('timeout', timeout_ms)
+    for h in ob.hyps:
+        s.add(h)
+    s.add(z3.Not(ob.goal))
+    return s.to_smt2()      # from a solver that never ran: z3 dumps its preprocessed state otherwise
+
+
+def solve_obligation(ob, timeout_ms=20000, want_smt2=False, hints=()):
+    """z3 first (short budget), then cvc5 on the same query, then z3 with other configurations.
+    'sat' only from z3 (a model is needed for replay)."""
+    zver = 'z3-%s' % z3.get_version_string()
+    first = min(timeout_ms, 6000)
+    s = z3.Solver()
+    s.set('timeout', first)
     for h in ob.hyps:
         s.add(h)
     s.add(z3.Not(ob.goal))
     t0 = time.time()
     r = s.check()
     dt = time.time() - t0
-    smt2 = None
     if r == z3.unsat:
-        return 'unsat', 'z3-%s' % z3.get_version_string(), dt, None, None, smt2
+        return 'unsat', zver, dt, None, None, None
     if r == z3.sat:
         model = s.model()
-        smt2 = s.to_smt2()
+        smt2 = _fresh_smt2(ob)
         # small-model bias for replay: try progressively weaker size hints
         for h in hints:
             s.push()
@@ -103,15 +114,14 @@ def solve_obligation(ob, timeout_ms=20000, want_smt2=False, hints=()):
                 s.pop()
                 break
             s.pop()
-        return 'sat', 'z3-%s' % z3.get_version_string(), dt, model, None, smt2
-    # unknown: try cvc5 on the same query
-    smt2 = s.to_smt2()
+        return 'sat', zver, dt, model, None, smt2
     reason = s.reason_unknown()
+    smt2 = _fresh_smt2(ob)
     st, secs = run_cvc5(smt2, timeout_ms)
+    dt += secs
     if st == 'unsat':
-        return 'unsat', 'cvc5', dt + secs, None, None, smt2
-    # retry z3 with another configuration (no model-based quantifier instantiation, different seed)
-    for cfg in ({'smt.mbqi': False, 'smt.random_seed': 7}, {'smt.arith.solver': 2, 'smt.random_seed': 3}):
+        return 'unsat', 'cvc5-1.0.3', dt, None, None, smt2
+    for cfg in ({'smt.mbqi': False, 'smt.random_seed': 7}, {'smt.arith.solver': 2, 'smt.random_seed': 3}, {}):
         s2 = z3.Solver()
         s2.set('timeout', timeout_ms)
         for kx, vx in cfg.items():
@@ -126,10 +136,101 @@ def solve_obligation(ob, timeout_ms=20000, want_smt2=False, hints=()):
         r2 = s2.check()
         dt += time.time() - t1
         if r2 == z3.unsat:
-            return 'unsat', 'z3-%s(alt)' % z3.get_version_string(), dt, None, None, smt2
+            return 'unsat', zver + '(alt)', dt, None, None, smt2
         if r2 == z3.sat:
-            return 'sat', 'z3-%s(alt)' % z3.get_version_string(), dt, s2.model(), None, smt2
-    return 'unknown', 'z3+cvc5', dt + secs, None, reason + ' / cvc5:' + st, smt2
+            return 'sat', zver + '(alt)', dt, s2.model(), None, smt2
+    # last resort: drop the quantified hypotheses (sound: proving from fewer hypotheses)
+    from .ctx import has_quantifier
+    qf = [h for h in ob.hyps if not has_quantifier(h)]
+    if len(qf) < len(ob.hyps):
+        s3 = z3.Solver()
+        s3.set('timeout', timeout_ms)
+        for h in qf:
+            s3.add(h)
+        s3.add(z3.Not(ob.goal))
+        t1 = time.time()
+        r3 = s3.check()
+        dt += time.time() - t1
+        if r3 == z3.unsat:
+            return 'unsat', zver + '(qf-hyps)', dt, None, None, smt2
+    # candidate counterexample: instantiate the quantified hypotheses on the ground terms of the query and
+    # look for a model of the quantifier-free result (a model of weakened hypotheses may be spurious: it is
+    # only ever used as an input for the replay on the real code, never as a verdict by itself)
+    try:
+        ghyps = ground_instances(ob.hyps, ob.goal)
+        s4 = z3.Solver()
+        s4.set('timeout', timeout_ms)
+        for h in ghyps:
+            s4.add(h)
+        s4.add(z3.Not(ob.goal))
+        t1 = time.time()
+        r4 = s4.check()
+        dt += time.time() - t1
+        if r4 == z3.sat:
+            model = s4.model()
+            for h in hints:
+                s4.push()
+                s4.add(h)
+                if s4.check() == z3.sat:
+                    model = s4.model()
+                    s4.pop()
+                    break
+                s4.pop()
+            return 'sat', zver + '(ground-instances; candidate only)', dt, model, None, smt2
+    except Exception:
+        pass
+    return 'unknown', 'z3+cvc5', dt, None, '%s / cvc5:%s' % (reason, st), smt2
+
+
+def _subterms(e, acc, seen):
+    stack = [e]
+    while stack:
+        x = stack.pop()
+        i = x.get_id()
+        if i in seen:
+            continue
+        seen.add(i)
+        if z3.is_quantifier(x):
+            continue
+        if z3.is_app(x):
+            acc.setdefault(x.decl().name(), []).append(x)
+            stack.extend(x.children())
+
+
+def ground_instances(hyps, goal):
+    from .ctx import has_quantifier
+    ground = {}
+    seen = set()
+    qs = []
+    out = []
+    for h in hyps:
+        if z3.is_quantifier(h) and h.is_forall():
+            qs.append(h)
+        elif has_quantifier(h):
+            continue
+        else:
+            out.append(h)
+            _subterms(h, ground, seen)
+    _subterms(goal, ground, seen)
+    for q in qs:
+        nv = q.num_vars()
+        if nv != 1 or q.num_patterns() == 0:
+            continue
+        pat = q.pattern(0)
+        if pat.num_args() != 1 if hasattr(pat, 'num_args') else False:
+            continue
+        p0 = pat.arg(0) if pat.num_args() >= 1 else None
+        if p0 is None or not z3.is_app(p0) or p0.num_args() != 1 or not z3.is_var(p0.arg(0)):
+            continue
+        fname = p0.decl().name()
+        done = set()
+        for t in ground.get(fname, [])[:200]:
+            a = t.arg(0)
+            if a.get_id() in done:
+                continue
+            done.add(a.get_id())
+            out.append(z3.substitute_vars(q.body(), a))
+    return out
 
 
 def run_cvc5(smt2, timeout_ms):
